@@ -514,6 +514,29 @@ func (g *opGen) value(t *ast.Type, depth int, allowVar bool) (string, any) {
 			s := "id" + strconv.Itoa(g.r.Intn(5))
 			return strconv.Quote(s), s
 		default:
+			if def.Name != "String" && !def.BuiltIn && g.chance(0.6) {
+				// custom scalar: any literal, also lists / objects, also with variables inside
+				g.tag("custom-scalar-literal")
+				switch g.r.Intn(5) {
+				case 0:
+					n := g.r.Intn(9)
+					return strconv.Itoa(n), float64(n)
+				case 1:
+					return `[1, "a", true]`, []any{float64(1), "a", true}
+				case 2:
+					return `{k: 1, l: ["x", null]}`, map[string]any{"k": float64(1), "l": []any{"x", nil}}
+				case 3:
+					if allowVar {
+						g.tag("var-in-custom-scalar-literal")
+						return "[" + g.variableFor(&ast.Type{NamedType: "Int"}) + "]", nil
+					}
+				case 4:
+					if allowVar {
+						g.tag("var-in-custom-scalar-literal")
+						return "{k: " + g.variableFor(&ast.Type{NamedType: "String"}) + "}", nil
+					}
+				}
+			}
 			s := pick(g.r, stringPool)
 			if g.p.HostileStrings && g.r.Intn(2) == 0 {
 				s = pick(g.r, []string{`q"uote`, `back\slash`, "unié世", "tab\there", "nl\nx", "\u0001ctl", "#hash", "a:b", ""})
